@@ -2,9 +2,9 @@
 # usage: import_seed.sh Cxx  -- copies /tmp/seed/Cxx/seed_out/{mutantN.diff,demoN.cpp,NOTES.md} into seeded/Cxx-mN/
 p=$1
 for n in 1 2; do
-  src=/tmp/seed/$p/seed_out
+  src=${SEED_ROOT:-/tmp/seed}/$p/seed_out
   [ -f $src/mutant$n.diff ] || continue
-  d=/verif/seeded/$p-m$n
+  d=/verif/seeded/${SEED_PREFIX}$p-m$n
   mkdir -p $d
   cp $src/mutant$n.diff $d/patch.diff
   [ -f $src/demo$n.cpp ] && cp $src/demo$n.cpp $d/demo.cpp
